@@ -87,6 +87,11 @@ impl TestRunnerAdapter {
 
                         {
                             let mut runner = thread_runner.write().unwrap();
+                            // The machine may have been paused since we looked at the state. Pausing happens while holding
+                            // the runner as well, so from here on we can be sure: once paused, nothing is executed anymore.
+                            if *thread_state.lock().unwrap() != MachineRunningState::Running {
+                                continue;
+                            }
                             match runner.execute_instruction() {
                                 Ok(result) => {
                                     // Give rest of core a chance to do something
@@ -228,7 +233,11 @@ impl MachineAdapter for TestRunnerAdapter {
     }
 
     fn pause(&mut self) -> MosResult<()> {
-        let pc = self.runner.read().unwrap().cpu().get_program_counter();
+        // Keep hold of the runner while changing the state, so the machine cannot execute another instruction in between
+        // (which would leave it somewhere else than where we say it stopped)
+        let runner = self.runner.clone();
+        let runner = runner.read().unwrap();
+        let pc = runner.cpu().get_program_counter();
         self.update_state(MachineRunningState::Stopped(ProgramCounter::new(
             pc as usize,
         )))?;
